@@ -458,3 +458,9 @@ package interpreter
 //@ schema conv_fixed(N=UFix128, DIV=1, min=0, max=pow2(128)-1)
 //@ schema conv_fixed_round(N=Fix64, DIV=10000000000000000, min=-pow2(63), max=pow2(63)-1)
 //@ schema conv_fixed_round(N=UFix64, DIV=10000000000000000, min=0, max=pow2(64)-1)
+
+// ---- C17: the range test of the fromString parsers of the 128/256-bit integer types
+//@ func inRange
+//@   requires val != nil && low != nil && high != nil
+//@   nofail
+//@   ensures[C17] iff(result, big(low) <= big(val) && big(val) <= big(high))
